@@ -308,9 +308,9 @@ impl Engine for C10 {
     }
     fn runs(&self, quick: bool) -> u64 {
         if quick {
-            6_000
+            60_000
         } else {
-            300_000
+            2_000_000
         }
     }
 
